@@ -257,6 +257,15 @@ func runC01(c *Ctx) {
 				var pv interface{}
 				func() {
 					defer func() { pv = recover() }()
+					if len(m) == 0 && caseNo%2 == 0 {
+						// "The map containing meta may be nil" (Backend.PutObject): a nil map, over an
+						// object that has metadata of its own
+						m = nil
+						if _, perr = s.Backend.PutObject(bucket, key, map[string]string{"X-Amz-Meta-Earlier": "1"}, strings.NewReader("earlier"), 7); perr != nil {
+							return
+						}
+						r.Count("go_puts_with_nil_metadata", 1)
+					}
 					_, perr = s.Backend.PutObject(bucket, key, m, bytes.NewReader(body), int64(len(body)))
 				}()
 				up = &drv.Resp{Status: 200}
